@@ -162,6 +162,7 @@ func (w *World) genFunc(fn *ssa.Function, c *FuncContract, base string) (g *GenU
 		}
 	}()
 	resetRunGlobals()
+	registerInteriorOrigins(fn, map[*ssa.Function]bool{})
 	st := newState()
 	var args []SV
 	fr0 := &Frame{fn: fn, regs: map[ssa.Value]SV{}}
@@ -262,6 +263,8 @@ func resetRunGlobals() {
 	streamCount = map[*ssa.Function]int{}
 	ascendCount = map[*ssa.Function]int{}
 	interiorTypes = map[string]bool{}
+	interiorOrigins = map[string]*interiorOrigin{}
+	pendingInterior = nil
 	inlineStack = nil
 }
 
@@ -462,4 +465,60 @@ func (e *Exec) typeFnFacts(st *BState, d *Descriptor, values *SliceV) (*SliceV, 
 		n = 2
 	}
 	return ts, n
+}
+
+
+// registerInteriorOrigins scans fn and its function literals for `&x.f...` whose value is stored in memory
+// (a Store's value operand): the (owner type, field path) per pointed-to type. Two different origins for one type
+// switch the read-through model off for that type (reads are arbitrary again).
+func registerInteriorOrigins(fn *ssa.Function, seen map[*ssa.Function]bool) {
+	if fn == nil || seen[fn] {
+		return
+	}
+	seen[fn] = true
+	for _, b := range fn.Blocks {
+		for _, ins := range b.Instrs {
+			fa, ok := ins.(*ssa.FieldAddr)
+			if !ok || fa.Referrers() == nil {
+				continue
+			}
+			stored := false
+			for _, r := range *fa.Referrers() {
+				if st, ok := r.(*ssa.Store); ok && st.Val == fa {
+					stored = true
+				}
+			}
+			if !stored {
+				continue
+			}
+			path := []int{fa.Field}
+			base := fa.X
+			for {
+				inner, ok := base.(*ssa.FieldAddr)
+				if !ok {
+					break
+				}
+				path = append([]int{inner.Field}, path...)
+				base = inner.X
+			}
+			pt, ok := base.Type().Underlying().(*types.Pointer)
+			if !ok {
+				continue
+			}
+			T := pt.Elem()
+			F := fa.Type().Underlying().(*types.Pointer).Elem()
+			pre := fieldPrefix(T, path)
+			k := typeKey(F)
+			if o := interiorOrigins[k]; o != nil {
+				if typeKey(o.T) != typeKey(T) || o.prefix != pre {
+					o.multi = true
+				}
+			} else {
+				interiorOrigins[k] = &interiorOrigin{T: T, prefix: pre, multi: pre == "?"}
+			}
+		}
+	}
+	for _, af := range fn.AnonFuncs {
+		registerInteriorOrigins(af, seen)
+	}
 }
